@@ -91,6 +91,11 @@ def gen_pipeline(scratch, gen_dir):
     out.append("/-- passes that return immediately when an earlier pass has reported errors -/")
     out.append("def passesSkippedAfterErrors : List String := [" + ", ".join(f'"{p}"' for p in sorted(passes.get("earlyReturn", []))) + "]")
     out.append("")
+    rsv = facts(scratch, "reserved")
+    for lang in ("cpp", "python", "matlab"):
+        out.append(f"/-- keys of the reserved-name table of the {lang} back end (go/ast) -/")
+        out.append(f"def reserved_{lang} : List String := [" + ", ".join(json.dumps(w) for w in rsv.get(lang, [])) + "]")
+        out.append("")
     vis = facts(scratch, "visitor")
     out.append("/-- every field of a dsl node struct that can hold child nodes: (struct, field, is it walked by VisitChildren) -/")
     out.append("def visitorFields : List (String × String × Bool) := [")
@@ -99,7 +104,7 @@ def gen_pipeline(scratch, gen_dir):
     out.append("end Yardl.Generated")
     with open(os.path.join(gen_dir, "Pipeline.lean"), "w") as f:
         f.write("\n".join(out) + "\n")
-    return {"pipeline": pipe, "passes": passes}
+    return {"pipeline": pipe, "passes": passes, "reserved": rsv}
 
 
 def facts(scratch, what):
